@@ -40,6 +40,8 @@ type FuncContract struct {
 	Key      string // "NewSlice3" or "(*Loader).mergeConfig" or full path for trusted ones
 	Pkg      string // package path (filled by loader)
 	Props    []string
+	Params   []string // authoring-time parameter names, bound positionally
+	Locals   []string // authoring-time local variable names in declaration order
 	Clauses  []*Clause
 	Trusted  bool // contract is assumed at call sites and never checked against a body
 	Inline   []string
@@ -226,6 +228,14 @@ func ParseContractFile(path string) (*ContractFile, error) {
 			return nil, errf("clause %q outside a func block", kw)
 		}
 		switch kw {
+		case "params":
+			// the parameter names (receiver first) the contract was written against:
+			// bound by POSITION, so that renaming parameters does not invalidate it
+			cur.Params = strings.Fields(strings.ReplaceAll(rest, ",", " "))
+		case "locals":
+			// authoring-time names of the function's local variables in declaration
+			// order: a local that was merely renamed is still found (by position)
+			cur.Locals = strings.Fields(strings.ReplaceAll(rest, ",", " "))
 		case "props":
 			cur.Props = strings.Fields(strings.ReplaceAll(rest, ",", " "))
 		case "trusted":
